@@ -65,6 +65,11 @@ ShallowEmpty(x) ==
     [] x.kind \in {"Table", "TableRow", "TableBody", "TableCell"} -> FALSE
     [] OTHER -> x.c = <<>>
 
+\* is_deep_empty: looks through the nodes that only group other nodes
+RECURSIVE DeepEmpty(_)
+DeepEmpty(x) == IF x.kind \in {"Container", "Em", "Strong", "Strikeout", "Code", "Sup"}
+                THEN \A i \in 1..Len(x.c) : DeepEmpty(x.c[i])
+                ELSE ShallowEmpty(x)
 \* insert_child(new, orig, position)
 InsertChild(new, orig, atStart) ==
   LET ins(cs) == IF atStart THEN <<new>> \o cs ELSE Append(cs, new) IN
@@ -73,7 +78,13 @@ InsertChild(new, orig, atStart) ==
     [] orig.kind = "TableRow" ->
          IF orig.c = <<>> THEN orig ELSE [orig EXCEPT !.c[1].c = ins(@)]
     [] orig.kind \in {"TableBody", "Table"} ->
-         IF orig.c = <<>> \/ orig.c[1].c = <<>> THEN orig ELSE [orig EXCEPT !.c[1].c[1].c = ins(@)]
+         \* the first cell (rows in order) that has content, else the first cell of the first row
+         LET rows == orig.c
+             HasCont(cell) == \E k \in 1..Len(cell.c) : ~DeepEmpty(cell.c[k])
+             cand == {<<i, j>> \in UNION {{<<i2, j2>> : j2 \in 1..Len(rows[i2].c)} : i2 \in 1..Len(rows)} : HasCont(rows[i].c[j])}
+             best == CHOOSE p \in cand : \A q \in cand : p[1] < q[1] \/ (p[1] = q[1] /\ p[2] <= q[2])
+         IN IF cand # {} THEN [orig EXCEPT !.c[best[1]].c[best[2]].c = ins(@)]
+            ELSE IF orig.c = <<>> \/ orig.c[1].c = <<>> THEN orig ELSE [orig EXCEPT !.c[1].c[1].c = ins(@)]
     [] OTHER -> Node("Container", NoSty, IF atStart THEN <<new, orig>> ELSE <<orig, new>>)
 
 \* first id (or name, for <a>) attribute in source order
@@ -113,6 +124,8 @@ RemapRow(row, S) ==
 Remap(rows) == LET S == ColPositions(rows) IN [i \in 1..Len(rows) |-> RemapRow(rows[i], S)]
 NumCols(rows) == FoldLeft(LAMBDA a, r : Max2(a, SumSeq([j \in 1..Len(r.c) |-> Max2(r.c[j].colspan, 1)])), 0, rows)
 
+RECURSIVE OnlyFrags(_)
+OnlyFrags(x) == x.kind = "FragStart" \/ (x.kind = "Container" /\ \A i \in 1..Len(x.c) : OnlyFrags(x.c[i]))
 RECURSIVE ToRender(_, _)
 ToRenderSeq(ns, cf) == FoldLeft(LAMBDA acc, n : acc \o ToRender(n, cf), <<>>, ns)
 ToRender(n, cf) ==
@@ -122,17 +135,20 @@ ToRender(n, cf) ==
   IF sty.none THEN <<>>
   ELSE LET isIgnored == Ignored(n)
            cs == IF isIgnored \/ (n.h /\ n.n \in {"img", "br"}) THEN <<>> ELSE ToRenderSeq(n.c, cf)
-           NE(node) == IF cs = <<>> THEN <<>> ELSE << node >>
+           \* pending_noempty: nothing for no children; fragment markers alone are only passed on
+           NE(node) == IF cs = <<>> THEN <<>>
+                       ELSE IF \A i \in 1..Len(cs) : OnlyFrags(cs[i]) THEN << Node("Container", NoSty, cs) >>
+                       ELSE << node >>
            nm == IF n.h THEN n.n ELSE "_foreign"
            res ==
              CASE nm \in {"html", "body"} -> << Node("Container", sty, cs) >>
                [] isIgnored -> <<>>
                [] nm = "span" -> NE(Node("Container", sty, cs))
                [] nm = "a" -> IF HasAttr(n, "href")
-                              THEN (IF \E i \in 1..Len(cs) : ~ShallowEmpty(cs[i])
+                              THEN (IF \E i \in 1..Len(cs) : ~DeepEmpty(cs[i])
                                     THEN << Node("Link", sty, cs) @@ [href |-> n.a.href] >>
-                                    ELSE IF \E i \in 1..Len(cs) : cs[i].kind = "Text" /\ cs[i].s # <<>>
-                                    THEN << Node("Container", sty, cs) >>      \* white space kept, no link
+                                    ELSE IF cs # <<>>
+                                    THEN << Node("Container", sty, cs) >>      \* no link text: children kept, no link
                                     ELSE <<>>)
                               ELSE << Node("Container", sty, cs) >>
                [] nm \in {"em", "i", "ins"} -> << Node("Em", sty, cs) >>
